@@ -64,7 +64,7 @@ func cases(tier string, seed int64) []fw.Case {
 	fams := pureFamilies()
 	k := int64(0)
 	// in-situ histories first (they take longest)
-	nSitu := 12
+	nSitu := 24
 	if thorough {
 		nSitu = 150
 	}
